@@ -259,17 +259,20 @@ where
     }
 }
 
-/// Holds the previous value for comparison.
+/// Holds the previous value of the lens `L` for comparison.
+///
+/// The state is keyed by the lens and not by its target type,
+/// so that conditions on different values of the same type don't share it.
 #[derive(Deref, DerefMut, Tid)]
-struct Previous<T: 'static>(Option<T>);
+struct Previous<L: AnyLens + 'static>(Option<L::Target>);
 
-impl<T> Default for Previous<T> {
+impl<L: AnyLens> Default for Previous<L> {
     fn default() -> Self {
         Self(None)
     }
 }
 
-impl<T: Send> CustomState<'_> for Previous<T> {}
+impl<L: AnyLens> CustomState<'_> for Previous<L> where L::Target: Send {}
 
 /// Checks if two values of type `&T` are equal using some measure.
 ///
@@ -413,13 +416,13 @@ where
     L::Target: Clone + Send,
 {
     fn init(&self, _problem: &P, state: &mut State<P>) -> ExecResult<()> {
-        state.insert(Previous::<L::Target>::default());
+        state.insert(Previous::<L>::default());
         Ok(())
     }
 
     fn evaluate(&self, problem: &P, state: &mut State<P>) -> ExecResult<bool> {
         let current = self.lens.get_ref(problem, state)?;
-        let mut previous = state.try_borrow_value_mut::<Previous<L::Target>>()?;
+        let mut previous = state.try_borrow_value_mut::<Previous<L>>()?;
 
         let changed = if let Some(previous) = &*previous {
             !self.checker.eq(&*current, previous)
